@@ -169,7 +169,14 @@ func C11(ctx *core.Ctx) int {
 			suspects = append(suspects, i)
 			continue
 		case r.Crashed != "":
+			// classify from a solo run: the crash report of a process that has already handled other inputs can be incomplete
+			if solo := runWorkers(ctx, []string{in.Text}, 1, perInput); solo[0].Crashed != "" && solo[0].Crashed != "hang" {
+				r.Crashed = solo[0].Crashed
+			}
 			bad = true
+			if strings.Contains(r.Crashed, "died") && os.Getenv("VERIF_DEBUG") != "" {
+				os.WriteFile(fmt.Sprintf("/var/tmp/died.%d.dsl", i), []byte(in.Text), 0o644)
+			}
 			outcomes["worker:"+r.Crashed]++
 			ctx.Report("library (format/parse/generate)|"+r.Crashed, fmt.Sprintf("input %s kills the process\n%s", in.Name, core.Trunc(in.Text, 500)), rep)
 		case r.ID == -1:
